@@ -13,4 +13,6 @@ Extraction "writer_model.ml"
   C01_nil_holds C01_we_holds C01_compl_holds C01_compl_total_holds C01_no_foreign_holds
   log_is_journal C01_dups_holds C01_holds C07_holds_for C07_holds rejected
   produce_error make_time_ms code_err reaction_of_code
+  cfg_of_options eff_batchSize eff_batchBytes eff_maxAttempts eff_batchTimeoutMs eff_backoffMinMs
+  eff_backoffMaxMs eff_readTimeoutMs eff_writeTimeoutMs
   Z.of_N.  (* Z.of_N also so that the shared ocaml/kvio.ml.in finds the type z *)
